@@ -16,7 +16,10 @@ ROOT = os.path.dirname(os.path.dirname(os.path.abspath(__file__)))
 ALL = ["C%02d" % i for i in range(1, 21)]
 CHECKS = {"B1": ["C07", "C15", "C20", "C09", "C10", "C01"], "B2": ["C01", "C02", "C08", "C10", "C14", "C06", "C07", "C09"],
           "B3": ["C04", "C05", "C06", "C13", "C16", "C02", "C09", "C10", "C19"], "B4": ["C03", "C11", "C12", "C15", "C09", "C01", "C10"],
-          "B5": ["C17", "C14", "C18", "C19", "C01", "C03", "C06", "C13", "C20"]}
+          "B5": ["C17", "C14", "C18", "C19", "C01", "C03", "C06", "C13", "C20"],
+          "B6": ["C06", "C08", "C16", "C19", "C20", "C07", "C02", "C10"], "B7": ["C07", "C15", "C20", "C01", "C09", "C10", "C03"],
+          "B8": ["C16", "C06", "C13", "C09", "C20"], "B9": ["C14", "C01", "C08", "C07", "C18", "C19", "C20", "C09"],
+          "B10": ["C13", "C05", "C04", "C06", "C09", "C03", "C11", "C12", "C15", "C17"]}
 argv = sys.argv[1:]
 allc = "--all" in argv
 names = [a for a in argv if not a.startswith("--")] or sorted(os.listdir(ROOT + "/benign"))
